@@ -100,6 +100,7 @@ def _short(v):
 
 INT_SAMPLES = [0, 1, -1, 2, 5, 63, 64, -64, -65, 127, 128, 129, 255, 256, -128, -129, 300, 624485, -624485,
                16383, 16384, 2**31 - 1, 2**31, -2**31, 2**32 - 1, 2**32, 2**63 - 1, 2**63, -2**63, 2**64 + 5]
+INT_SAMPLES_WIDE = sorted(set(INT_SAMPLES + [s * (2**k) + d for k in range(0, 72) for d in (-1, 0, 1) for s in (1, -1)]))
 
 
 def auto_samples(ct, g, rnd, n=24):
@@ -116,7 +117,7 @@ def auto_samples(ct, g, rnd, n=24):
             kind = ct.params[k]
             kk = kind[0] if isinstance(kind, tuple) else kind
             if kk == "int":
-                d[k] = rnd.choice(INT_SAMPLES + [rnd.randint(-2**70, 2**70), rnd.randint(-300, 300)])
+                d[k] = rnd.choice((INT_SAMPLES_WIDE if n > 100 else INT_SAMPLES) + [rnd.randint(-2**70, 2**70), rnd.randint(-300, 300)])
             elif kk == "nat":
                 d[k] = abs(rnd.choice(INT_SAMPLES + [rnd.randint(0, 2**70), rnd.randint(0, 300)]))
             elif kk == "range":
@@ -312,7 +313,7 @@ def main(argv=None):
             else:
                 # model does not replay (e.g. unreachable loop state): search natively
                 found = None
-                for inp in auto_samples(ct, g, random.Random(seed + 1), 400):
+                for inp in auto_samples(ct, g, random.Random(seed + 1), 3000):
                     try:
                         ok2, d2 = replay_native(ct, g, inp)
                     except Exception:
